@@ -187,6 +187,16 @@ func dischargeAll(results []*FuncResult, dir string, timeoutMs int, all bool, wo
 					continue
 				}
 				q := j.vc.buildQuery(j.ob, true)
+				if j.ob.Expect == "sat" {
+					// vacuity guards only need "not unsat": one solver, short limit
+					file := filepath.Join(dir, sanitize(j.ob.Name)+".smt2")
+					os.WriteFile(file, []byte(q), 0o644)
+					j.ob.Query = file
+					r := runSolver(solvers[0], file, 3000)
+					j.ob.Verdict, j.ob.Millis = r.verdict, r.millis
+					j.ob.Solver = fmt.Sprintf("%s=%s(%dms)", r.solver, r.verdict, r.millis)
+					continue
+				}
 				discharge(j.ob, q, dir, timeoutMs, all)
 			}
 		}()
